@@ -1,8 +1,54 @@
-(* C07 — parsing is the inverse of printing.  Statements only (in progress: see the manifest). *)
-From Coq Require Import String ZArith List Bool.
-From FcpV Require Import Front.Lexer Front.Parser Front.Elab.
+(* C07 — parsing is the inverse of printing.  Statements only; proofs in
+   Front/ParserProofs.v, Front/ParserFormatProofs.v, Front/LexerProofs.v,
+   Front/FrontFormatProofs.v. *)
+From Coq Require Import String Ascii ZArith List Bool.
+From FcpV Require Import Schema.Types Front.Lexer Front.Parser Front.Elab Front.Printer
+  Front.ParserProofs Front.ParserFormatProofs Front.LexerProofs Front.FrontFormatProofs.
 Import ListNotations.
 Open Scope string_scope.
+
+(* 1. printing a well-formed description to tokens and parsing them returns the description: every production, any nesting
+      depth of types and values, any number of items (no bound: induction over the description) *)
+Theorem parse_inverts_print :
+  forall version its, wf_items its = true -> parse_tokens (print_tokens version its) = Some (version, its).
+Proof. exact parse_print_tokens. Qed.
+Print Assumptions parse_inverts_print.
+
+(* 2. ... and so does every other spelling of it: with or without "|" before a parameter or before a field's closing comma,
+      with or without "," after a parameter argument, with or without the "as" of a binding *)
+Theorem optional_separators_do_not_matter :
+  forall version its tss, wf_items its = true -> Forall2 item_toks its tss ->
+    parse_tokens (TId "version" :: P ":" :: TStr version :: concat tss) = Some (version, its).
+Proof. exact parse_spelled. Qed.
+Print Assumptions optional_separators_do_not_matter.
+
+Theorem canonical_is_a_spelling : forall it, item_toks it (print_item it).
+Proof. exact item_toks_canonical. Qed.
+Print Assumptions canonical_is_a_spelling.
+
+(* 3. white space and comments do not matter: a text made of the tokens' texts with any blanks (spaces, tabs, newlines,
+      // and /* */ comments) between them - empty only where the next character cannot extend the previous token - lexes to
+      exactly those tokens *)
+Theorem formatting_does_not_matter : forall ts src, spelled ts src -> lex src = Some ts.
+Proof. exact lex_spelled. Qed.
+Print Assumptions formatting_does_not_matter.
+
+(* 1-3 together: source text in, description out *)
+Theorem parse_of_any_rendering :
+  forall version its tss src, wf_items its = true -> Forall2 item_toks its tss ->
+    spelled (TId "version" :: P ":" :: TStr version :: concat tss) src ->
+    parse src = Some (version, its).
+Proof.
+  intros version its tss src Hwf Hits Hsp. unfold parse. rewrite (lex_spelled _ _ Hsp). now apply parse_spelled.
+Qed.
+Print Assumptions parse_of_any_rendering.
+
+(* 4. the tree (or error) the front end returns depends on the files only through what they parse to: any two renderings of
+      the same descriptions give the same answer, through any module graph *)
+Theorem front_end_depends_on_parse_only :
+  forall o fs1 fs2 root, same_parse fs1 fs2 -> front_end o fs1 root = front_end o fs2 root.
+Proof. exact front_end_same_parse. Qed.
+Print Assumptions front_end_depends_on_parse_only.
 
 Example c07_nonvacuous :
   parse "version: ""3""  struct A { x @0: Optional[[u8, 3]] | unit(""V"") range(0.5, 1e3,), }  /* c */ enum E { P = -1, }"
@@ -11,3 +57,22 @@ Example c07_nonvacuous :
                                                 {| pp_name := "range"; pp_args := [PVFloat "0.5"; PVFloat "1e3"] |} ] |} ];
                  IEnum "E" [("P", PVInt (-1))]]).
 Proof. vm_compute. reflexivity. Qed.
+
+(* the hypotheses of 1-3 are met by a description with every kind of item ... *)
+Example c07_wf_nonvacuous :
+  wf_items [IStruct "A" [ {| pf_name := "x"; pf_id := PVInt 0; pf_type := PTOpt (PTArr (PTRef "E") (PVInt 3));
+                             pf_params := [ {| pp_name := "range"; pp_args := [PVFloat "0.5"; PVArr [PVInt 1; PVStr "s"]] |} ] |} ];
+            IEnum "E" []; IImpl "can" "A" (Some "B") [PExt "id" (PVInt 5); PSig "x" [("scale", PVFloat "1.5")]];
+            IService "S" (PVInt 1) [ {| pm_name := "m"; pm_input := "A"; pm_id := PVInt 0; pm_output := "A" |} ];
+            IDevice "d" [("k", PVStr "v")]; IMod ["a"; "b"]] = true.
+Proof. vm_compute. reflexivity. Qed.
+
+(* ... and a text with comments, no blank where none is needed, and a trailing line comment is a spelling *)
+Example c07_spelled_nonvacuous : spelled [TId "a"; TPunct ":"; TInt (-5); TStr "x y"] " a/* c */:-5 ""x y""// end".
+Proof.
+  apply (SP_id " " "a" "" "/* c */:-5 ""x y""// end"); [apply B_space; [reflexivity|apply B_nil]|reflexivity|reflexivity|reflexivity|].
+  apply (SP_punct "/* c */" ":" "-5 ""x y""// end"); [apply (B_block " c " ""); [reflexivity|apply B_nil]|reflexivity|discriminate|].
+  apply (SP_snum "" true "5" false " ""x y""// end"); [apply B_nil|reflexivity|reflexivity|].
+  apply (SP_str " " "x y" "// end"); [apply B_space; [reflexivity|apply B_nil]|reflexivity|].
+  apply (SP_end_line "" " end"); [apply B_nil|reflexivity].
+Qed.
